@@ -237,7 +237,9 @@ fn c04_svm_reg_nusvr_iff_documented_f64() {
     assert!(!in_range || ok, "documented range => accepted");
     if ok {
         assert!(nu > 0.0 && nu <= 1.0, "accepted => nu in (0, 1]");
-        assert!(default_c || c > 0.0, "accepted => C value of nu_svr in (0, inf)");
+        // NOT demanded: a range for the optional C value of nu-regression.  The only "(0, inf)" sentence of the crate docs
+        // sits in the C-classification paragraph and `nu_svr` documents just "optionally a C value (default 1.)";
+        // the guard never looks at it.  Demanding it would ask more than the documentation states (main session decision).
         assert!(eps_ok && platt_ok, "accepted => eps and Platt parameters documented");
     }
     kani::cover!(in_range && ok);
@@ -252,7 +254,9 @@ fn c04_svm_reg_nusvr_iff_documented_f32() {
     assert!(!in_range || ok, "documented range => accepted");
     if ok {
         assert!(nu > 0.0 && nu <= 1.0, "accepted => nu in (0, 1]");
-        assert!(default_c || c > 0.0, "accepted => C value of nu_svr in (0, inf)");
+        // NOT demanded: a range for the optional C value of nu-regression.  The only "(0, inf)" sentence of the crate docs
+        // sits in the C-classification paragraph and `nu_svr` documents just "optionally a C value (default 1.)";
+        // the guard never looks at it.  Demanding it would ask more than the documentation states (main session decision).
         assert!(eps_ok && platt_ok, "accepted => eps and Platt parameters documented");
     }
     kani::cover!(in_range && ok);
